@@ -501,6 +501,31 @@ def judge(ctx, case, container, channel, mode, obs, ref_obs, aw_ref, data_text=N
     return False
 
 
+def roundtrip_oracle(ctx, case, aw_ref):
+    """The statements of `md_roundtrip` / `csv_roundtrip` evaluated on the implementation: inside the
+    Lean guards (evaluated by the driver) the harness rendering is the model's rendering, and
+    pyxform's parser returns the model's dict container `toBook`."""
+    from pyxform import xls2json_backends as b
+
+    try:
+        json.dumps(aw_ref).encode("utf-8")
+    except UnicodeEncodeError:
+        return
+    v = ctx.driver.call("be.render", sheets=aw_ref["sheets"])
+    for kind, ok, fn, mine in (("md", v["mdok"], b.md_to_dict, C.to_md), ("csv", v["csvok"], b.csv_to_dict, C.to_csv)):
+        ctx.count(f"guard:{kind}:{'inside' if ok else 'outside'}")
+        if not ok:
+            continue
+        text = mine(aw_ref)
+        if text != v[kind]:
+            ctx.mismatch(f"harness {kind} rendering vs Backends.render{kind.capitalize()}", case, text, v[kind])
+            continue
+        py = FN.py_outcome(fn, text.encode("utf-8"))
+        if py != {"outcome": "ok", "book": v["book"]}:
+            ctx.fail(Failure(f"roundtrip-{kind}", f"{kind}_to_dict(render(wb)) is not the dict container of wb although the guard of {kind}_roundtrip holds",
+                             case, signature=f"roundtrip:{kind}", extra={"text": text, "got": py, "expected": v["book"]}))
+
+
 def case_run(ctx, case, scratch: C.Scratch, full: bool = True):
     """case = {"aw": …, "layout": …, "channels": seed}"""
     aw = case["aw"]
@@ -543,6 +568,8 @@ def case_run(ctx, case, scratch: C.Scratch, full: bool = True):
         rendered["xls"] = C.to_fake_xls(grids)
     else:
         ctx.count("xlsx:not-representable")
+
+    roundtrip_oracle(ctx, case, aw_ref)
 
     for container, data in rendered.items():
         chans = C.channels_for(container)
